@@ -674,8 +674,11 @@ def run(ctx):
     cases = []
     import os
     only = os.environ.get('VERIF_C23_KINDS', 'gen,coro,agen').split(',')     # development aid: restrict the kinds swept
+    only_bodies = os.environ.get('VERIF_C23_BODIES')                         # development aid: restrict the bodies swept
     for kind, bodies in KINDS:
         if kind in only:
+            if only_bodies:
+                bodies = [b_ for b_ in bodies if b_ in only_bodies.split(',')]
             cases += first_cases(kind, bodies, bd[kind], False)
     ctx.log('%d bodies, %d search partitions, bounds %s' % (sum(len(x[1]) for x in KINDS), len(cases), bd))
     tot = Totals()
